@@ -316,6 +316,9 @@ Proof. unfold ems_requested. intro H. rewrite H. apply orb_true_r. Qed.
 
 Ltac rstepn H a E := apply rbind_ok in H; destruct H as [a [E H]].
 
+Ltac sfproj := cbn [f_version f_suite f_group f_sig f_ems f_ems_ext f_srtp f_mki_echo f_mki_peer f_alpn f_cid_ext f_rrc_ext
+                    f_resumed f_cert f_cert_req f_sh_exts f_ee_exts f_key f_alt].
+
 Lemma hd_In (l : list N) : hd 0 l <> 0 -> In (hd 0 l) l.
 Proof. destruct l; cbn; [congruence | auto]. Qed.
 
@@ -328,8 +331,10 @@ Record server12_sound (k : conn) (ss : list N) (h : hello) (f : server_flight) :
               In (f_group f) (k_curves k) /\ f_group f <> g11_curve_mlkem /\
               (forall gs, h_groups h = Some gs -> In (f_group f) gs);
   s12_group_suite : f_group f <> 0 -> (s_auth (f_suite f) =? g11_auth_certificate) || s_ecdhe (f_suite f) = true;
-  s12_sig : f_sig f <> 0 -> In (f_sig f) (k_sigs k) /\ sig_fits false (c_key (k_cfg k)) (f_sig f) = true;
-  s12_cert : f_cert f = true -> c_key (k_cfg k) <> 0 /\ (s_auth (f_suite f) =? g11_auth_certificate) = true /\ f_sig f <> 0;
+  s12_sig : f_sig f <> 0 -> In (f_sig f) (k_sigs k) /\ sig_fits false (f_key f) (f_sig f) = true;
+  s12_cert : f_cert f = true -> f_key f <> 0 /\ (s_auth (f_suite f) =? g11_auth_certificate) = true /\ f_sig f <> 0;
+  s12_key : (f_key f = 0 /\ f_alt f = false /\ f_cert f = false) \/
+            (f_key f = presented_key (k_cfg k) h /\ f_alt f = presents_alt (k_cfg k) h);
   s12_srtp : f_srtp f <> 0 ->
              In (f_srtp f) (c_srtp (k_cfg k)) /\
              exists ps mk, h_srtp h = Some (ps, mk) /\ In (f_srtp f) ps /\ f_mki_peer f = mk /\
@@ -346,7 +351,11 @@ Record server12_sound (k : conn) (ss : list N) (h : hello) (f : server_flight) :
 Lemma server12_spec k ss h r f : server12 k ss h r = ROk f -> server12_sound k ss h f.
 Proof.
   unfold server12. cbv zeta. intro H.
-  rstepn H u0 E. rstepn H suite E0. rstepn H group E1. rstepn H u2 E2. rstepn H tr E3.
+  rstepn H ch E00. destruct ch as [[suite group] ems0]. cbn beta iota in H.
+  unfold hello12_choices in E00. cbv zeta in E00.
+  rstepn E00 u0 E. rstepn E00 suite' E0. rstepn E00 group' E1. rstepn E00 u2 E2.
+  inversion E00; subst suite' group' ems0; clear E00.
+  rstepn H tr E3.
   destruct tr as [[profile echo] peer]. cbn beta iota in H.
   rstepn H proto E4. rstepn H u5 E5.
   apply of_opt_ok in E0. apply first_common_some in E0. destruct E0 as [Hoff Hloc].
@@ -375,17 +384,17 @@ Proof.
   { intro Hx. apply andb_true_iff in Hx. destruct Hx as [_ Hx]. split; [|exact Hx].
     apply andb_true_iff in Hx. tauto. }
   destruct (r && h_session h && c_store (k_cfg k)) eqn:Eres.
-  - inversion H; subst; clear H. constructor; cbn; try assumption; try congruence; try tauto.
+  - inversion H; subst; clear H. constructor; sfproj; try assumption; try congruence; try tauto.
   - destruct (s_auth suite =? g11_auth_certificate) eqn:Ecert.
     + rstepn H u6 E6. rstepn H sg E7. inversion H; subst; clear H.
       apply req_ok in E6. apply negb_true_iff, N.eqb_neq in E6.
       apply of_opt_ok in E7. apply select_sig_some in E7.
-      constructor; cbn; try assumption; try congruence; try tauto; try (intros _; rewrite Ecert; reflexivity).
+      constructor; sfproj; try assumption; try congruence; try tauto; try (intros _; rewrite Ecert; reflexivity).
       intros _. split; [exact E6|]. split; [exact Ecert|].
       destruct E7 as [E7 E8]. intro Hz. subst. unfold sig_fits, sig_info in E8.
       destruct (lookup 0 g11_sigs) eqn:El; [|discriminate]. vm_compute in El. discriminate.
     + inversion H; subst; clear H.
-      destruct (s_ecdhe suite) eqn:Ee; constructor; cbn; rewrite ?Ee; try assumption; try congruence; try tauto;
+      destruct (s_ecdhe suite) eqn:Ee; constructor; sfproj; rewrite ?Ee; try assumption; try congruence; try tauto;
         try (intros _; apply orb_true_r).
 Qed.
 
@@ -419,7 +428,7 @@ Record server13_sound (k : conn) (ss : list N) (h : hello) (f : server_flight) :
   s13_group : In (f_group f) (k_curves k) /\ In (f_group f) (h_shares h) /\
               exists gs, h_groups h = Some gs /\ In (f_group f) gs;
   s13_sig : In (f_sig f) (k_sigs k) /\ In (f_sig f) (h_sigs h) /\
-            sig_fits true (c_key (k_cfg k)) (f_sig f) = true /\ sig_encodable (f_sig f) = true;
+            sig_fits true (f_key f) (f_sig f) = true /\ sig_encodable (f_sig f) = true;
   s13_srtp : f_srtp f <> 0 ->
              In (f_srtp f) (c_srtp (k_cfg k)) /\
              exists ps mk, h_srtp h = Some (ps, mk) /\ In (f_srtp f) ps /\ f_mki_peer f = mk /\
@@ -427,7 +436,8 @@ Record server13_sound (k : conn) (ss : list N) (h : hello) (f : server_flight) :
   s13_srtp_none : f_srtp f = 0 -> h_srtp h = None /\ c_srtp (k_cfg k) = [];
   s13_alpn : f_alpn f = 0;
   s13_cid : f_cid_ext f = server_cid h (k_cfg k);
-  s13_flags : f_resumed f = false /\ f_cert f = true /\ f_ems f = true /\ c_key (k_cfg k) <> 0;
+  s13_flags : f_resumed f = false /\ f_cert f = true /\ f_ems f = true /\ f_key f <> 0;
+  s13_key : f_key f = presented_key (k_cfg k) h /\ f_alt f = presents_alt (k_cfg k) h;
   s13_exts : hello_wf h -> validate_response_exts h (f_sh_exts f) = true /\
                            validate_response_exts h (f_ee_exts f) = true
 }.
@@ -449,8 +459,7 @@ Proof.
   apply req_ok in E6. apply negb_true_iff, N.eqb_neq in E6.
   apply of_opt_ok in E7. apply select_sig_some in E7. destruct E7 as [S1 S2].
   apply inter_In in S1. destruct S1 as [S1 S3]. apply filter_In in S1. destruct S1 as [S1 _].
-  constructor; cbn [f_version f_suite f_group f_sig f_ems f_ems_ext f_srtp f_mki_echo f_mki_peer f_alpn f_cid_ext f_rrc_ext f_resumed f_cert f_cert_req f_sh_exts f_ee_exts];
-    try assumption; try reflexivity; try tauto.
+  constructor; sfproj; try assumption; try reflexivity; try tauto.
   - repeat split; try assumption. destruct (h_groups h) as [gs|]; [|discriminate]. exists gs. now split.
   - intro Hp. apply negotiate_srtp_ok in E8.
     destruct E8 as [[Hz _]|[_ [ps [mk [Ho [Hl [Hps [Hm He]]]]]]]]; [congruence|].
@@ -472,7 +481,7 @@ Qed.
 (* ------------------------------------------------------------------ the client's checks *)
 
 Ltac outproj := cbn [o_version o_suite o_group o_sig o_csig o_ems o_srtp o_mki_client o_mki_server o_alpn o_cid
-                     o_resumed o_server_cert o_client_cert o_cert_requested o_ch_exts o_sh_exts].
+                     o_resumed o_server_cert o_client_cert o_cert_requested o_ch_exts o_sh_exts o_server_key].
 
 Lemma common_sigs_In remote local x :
   In x (common_sigs remote local) <-> In x remote /\ (local = [] \/ In x local).
@@ -505,7 +514,12 @@ Record client_sound (v : N) (ck sk : conn) (cs : list N) (h : hello) (f : server
   cl_sig : o_sig o <> 0 -> o_sig o = f_sig f /\ In (f_sig f) (k_sigs ck);
   cl_chain : o_server_cert o = true -> o_resumed o = false ->
              (s_auth (f_suite f) =? g11_auth_certificate) = true \/ v = v13 ->
-             c_skip_verify (k_cfg ck) = true \/ In (c_chain_sig (k_cfg sk)) (cert_algs ck);
+             c_skip_verify (k_cfg ck) = true \/
+             (f_alt f = c_sni (k_cfg ck) /\ In (c_chain_sig (k_cfg sk)) (cert_algs ck));
+  cl_alpn_own : o_alpn o <> 0 -> In (o_alpn o) (c_alpn (k_cfg ck));
+  cl_group_own : v = v12 -> o_resumed o = false -> s_ecdhe (f_suite f) = true ->
+                 In (o_group o) (k_curves ck) /\ o_group o <> g11_curve_mlkem;
+  cl_server_key : o_server_key o = f_key f;
   cl_csig : o_csig o <> 0 -> In (o_csig o) (k_sigs sk) /\ (k_sigs ck = [] \/ In (o_csig o) (k_sigs ck)) /\
                              o_client_cert o = true /\
                              sig_fits (v =? v13) (c_key (k_cfg ck)) (o_csig o) = true;
@@ -540,8 +554,11 @@ Lemma client12_spec ck sk cs h f o :
 Proof.
   unfold client12. cbv zeta. intro H.
   rstepn H u0 E0. rstepn H tr E1. destruct tr as [profile mki]. cbn beta iota in H.
-  rstepn H u2 E2. rstepn H u3 E3.
+  rstepn H ua Ea. rstepn H u2 E2. rstepn H u3 E3.
   apply if_ok in E0. apply validate_srtp_client in E1. destruct E1 as [P1 P2].
+  apply req_ok in Ea.
+  assert (Halpn : f_alpn f <> 0 -> In (f_alpn f) (c_alpn (k_cfg ck))).
+  { intro Hn. apply orb_true_iff in Ea. destruct Ea as [Ea|Ea]; [apply N.eqb_eq in Ea; congruence | now apply mem_In]. }
   apply req_ok in E2. apply req_ok in E3.
   apply andb_true_iff in E3. destruct E3 as [E3 S3]. apply andb_true_iff in E3. destruct E3 as [_ S2].
   apply mem_In in S3.
@@ -553,15 +570,19 @@ Proof.
   - inversion H; subst; clear H. constructor; outproj; rewrite ?Hv; try tauto; try congruence; try reflexivity; try (repeat split; congruence).
 
   - destruct (s_auth (f_suite f) =? g11_auth_certificate) eqn:Ecert.
-    + rstepn H u4 E4. rstepn H u5 E5. rstepn H u6 E6. rstepn H tr E7. destruct tr as [ccert csg].
+    + rstepn H u4 E4. rstepn H ug Eg. rstepn H u5 E5. rstepn H u6 E6. rstepn H tr E7. destruct tr as [ccert csg].
       cbn beta iota in H. inversion H; subst; clear H.
-      apply req_ok in E4, E5, E6. apply mem_In in E5.
+      apply req_ok in E4, Eg, E5, E6. apply mem_In in E5.
       apply client_auth_sig_spec in E7.
       constructor; outproj; rewrite ?Hv; try tauto; try congruence; try reflexivity; try (repeat split; congruence).
-      all: try (intros _ _ _; apply orb_true_iff in E6; destruct E6 as [E6|E6]; [now left | right; now apply mem_In]).
+      all: try (intros _ _ _; apply orb_true_iff in E6; destruct E6 as [E6|E6]; [now left | right];
+                apply andb_true_iff in E6; destruct E6 as [E6a E6b]; split; [now apply Bool.eqb_prop | now apply mem_In]).
+      all: try (intros _ _ He; rewrite He in Eg; cbn in Eg; apply mem_In, curves12_In in Eg; exact Eg).
       all: try (intro Hc; destruct E7 as [[_ Hz]|[Hb [_ [_ [Hin [Hown Hfit]]]]]]; [congruence | tauto]).
-    + inversion H; subst; clear H. constructor; outproj; rewrite ?Hv; try tauto; try congruence; try reflexivity; try (repeat split; congruence).
-      intros _ _ [Hc|Hc]; [congruence | discriminate].
+    + rstepn H ug Eg. apply req_ok in Eg.
+      inversion H; subst; clear H. constructor; outproj; rewrite ?Hv; try tauto; try congruence; try reflexivity; try (repeat split; congruence).
+      all: try (intros _ _ [Hc|Hc]; [congruence | discriminate]).
+      all: try (intros _ _ He; rewrite He in Eg; cbn in Eg; apply mem_In, curves12_In in Eg; exact Eg).
 Qed.
 
 Lemma client13_spec ck sk cs h f o :
@@ -583,8 +604,11 @@ Proof.
   apply mem_In in S3. apply client_auth_sig_spec in E7.
   assert (v13 =? v13 = true) as Hv by reflexivity.
   repeat split; outproj; rewrite ?Hv; try tauto; try congruence; try reflexivity.
-  - intros _ _ _. apply orb_true_iff in E6. destruct E6 as [E6|E6]; [now left | right; now apply mem_In].
-  - intro Hc. subst. cbn in Eenc. now apply negb_false_iff in Eenc.
+  all: try (intros _ _ _; apply orb_true_iff in E6; destruct E6 as [E6|E6]; [now left | right];
+            apply andb_true_iff in E6; destruct E6 as [E6a E6b]; split; [now apply Bool.eqb_prop | now apply mem_In]).
+  all: try (intro Hq; discriminate Hq).
+  Show.
+  all: try (intro Hc; subst; cbn in Eenc; now apply negb_false_iff in Eenc).
 Qed.
 
 Lemma server_finish_ok is13 sk ck o o' : server_finish is13 sk ck o = ROk o' -> o' = o.
